@@ -37,11 +37,13 @@ structure Params where
   quitEofIsGraceful : Bool
   /-- `Kill`'s deferred function waits for the client's goroutines (so `exited` is set when it returns) -/
   waitsForGoroutines : Bool
+  /-- `c.runner = nil` is assigned only in `Kill`'s deferred function, after `clientWaitGroup.Wait()` -/
+  runnerClearedAfterWait : Bool
   deriving DecidableEq, Repr
 
 def Params.Good (P : Params) : Prop :=
   P.graceMs = 2000 ∧ P.forceAfterGrace = true ∧ P.shutdownRpcHasDeadline = true ∧ P.quitEofIsGraceful = true ∧
-  P.waitsForGoroutines = true
+  P.waitsForGoroutines = true ∧ P.runnerClearedAfterWait = true
 
 instance (P : Params) : Decidable P.Good := by unfold Params.Good; exact inferInstance
 
@@ -102,5 +104,16 @@ def kill (P : Params) (proto : Proto) (beh : Beh) (replyLost hasAddr clientOk : 
     else
       -- force kill (immediately when Close failed, after the grace period otherwise)
       ⟨true, true, true, P.waitsForGoroutines, false, cms + (if graceful then P.graceMs else 0)⟩
+
+/-- A `Kill` that begins while an earlier `Kill` of the same client is still running (anywhere between its first
+lock section and the end of its deferred function).  `closeAgainOk`: closing the already closed protocol
+client reports no error (otherwise this call force-kills at once).
+
+`Kill` starts with `if runner == nil { return }`: with the runner reference cleared only after the wait, the
+overlapping call still sees it and goes through the whole procedure itself — including the deferred
+`clientWaitGroup.Wait()`; cleared earlier, the overlapping call returns at once while the process is alive. -/
+def killDuring (P : Params) (proto : Proto) (beh : Beh) (replyLost hasAddr closeAgainOk : Bool) : Outcome :=
+  if P.runnerClearedAfterWait then kill P proto beh replyLost hasAddr closeAgainOk
+  else ⟨true, false, false, false, false, 0⟩
 
 end GoPlugin.Kill
